@@ -26,6 +26,7 @@ const base = "github.com/gauss-project/aurorafs/pkg/zzverif/"
 type config struct {
 	Pkgs    []string          `json:"pkgs"`
 	Watch   []string          `json:"watch"`   // "Type.field"
+	WatchSlices []string      `json:"watch_slice_types"` // element-level tracking for slices of these types (types.TypeString)
 	NoTime  bool              `json:"no_time"` // keep the real package time
 	Sources map[string]string `json:"sources"` // repo-relative file -> replacement content path
 	Skip    []string          `json:"skip_files"`
@@ -43,6 +44,8 @@ var (
 	fset  *token.FileSet
 	info  *types.Info
 	watch = map[string]bool{}
+	watchSlices = map[string]bool{}
+	generated = map[ast.Node]bool{}
 	uniq  int
 )
 
@@ -90,6 +93,7 @@ type touch struct {
 	obj   ast.Expr
 	field string
 	write bool
+	raw   *ast.CallExpr // a complete call instead of Touch(obj, field, write)
 }
 
 func watchedSel(e ast.Expr) (*ast.SelectorExpr, string) {
@@ -114,6 +118,21 @@ func watchedSel(e ast.Expr) (*ast.SelectorExpr, string) {
 		return nil, ""
 	}
 	return s, key
+}
+
+func isWatchedSlice(e ast.Expr) bool {
+	if len(watchSlices) == 0 {
+		return false
+	}
+	tv, ok := info.Types[e]
+	if !ok || tv.Type == nil {
+		return false
+	}
+	return watchSlices[types.TypeString(tv.Type, nil)]
+}
+
+func elemAddr(x, idx ast.Expr) ast.Expr {
+	return &ast.UnaryExpr{Op: token.AND, X: &ast.IndexExpr{X: x, Index: idx}}
 }
 
 func stripToSel(e ast.Expr) ast.Expr {
@@ -152,10 +171,14 @@ func collectTouches(stmt ast.Stmt) []touch {
 		}
 	}
 	var exprs []ast.Node
+	elemWrites := map[ast.Node]bool{}
 	switch s := stmt.(type) {
 	case *ast.AssignStmt:
 		for _, l := range s.Lhs {
 			markWrite(l)
+			if ix, ok := l.(*ast.IndexExpr); ok && isWatchedSlice(ix.X) {
+				elemWrites[ix] = true
+			}
 		}
 		exprs = append(exprs, s)
 	case *ast.IncDecStmt:
@@ -209,6 +232,20 @@ func collectTouches(stmt ast.Stmt) []touch {
 				if f, ok := x.Fun.(*ast.Ident); ok && f.Name == "delete" && len(x.Args) == 2 {
 					markWrite(x.Args[0])
 				}
+				if f, ok := x.Fun.(*ast.Ident); ok && f.Name == "append" && len(x.Args) >= 1 && isWatchedSlice(x.Args[0]) {
+					var n ast.Expr = &ast.BasicLit{Kind: token.INT, Value: fmt.Sprint(len(x.Args) - 1)}
+					if x.Ellipsis.IsValid() {
+						n = call(id("len"), x.Args[1])
+					}
+					out = append(out, touch{raw: call(sel("vsched", "TouchAppend"), x.Args[0], n)})
+				}
+				if f, ok := x.Fun.(*ast.Ident); ok && f.Name == "copy" && len(x.Args) == 2 && (isWatchedSlice(x.Args[0]) || isWatchedSlice(x.Args[1])) {
+					out = append(out, touch{raw: call(sel("vsched", "TouchCopy"), x.Args[0], x.Args[1])})
+				}
+			case *ast.IndexExpr:
+				if isWatchedSlice(x.X) {
+					out = append(out, touch{obj: elemAddr(x.X, x.Index), field: "elem", write: elemWrites[x]})
+				}
 			case *ast.SelectorExpr:
 				if s, key := watchedSel(x); s != nil {
 					out = append(out, touch{obj: objExpr(s), field: key, write: writes[s]})
@@ -228,6 +265,13 @@ func touchStmts(ts []touch) []ast.Stmt {
 	seen := map[string]bool{}
 	var out []ast.Stmt
 	for _, t := range ts {
+		if t.raw != nil {
+			st := &ast.ExprStmt{X: t.raw}
+			generated[st] = true
+			out = append(out, st)
+			rep.Constructs["touch-elems"]++
+			continue
+		}
 		var b bytes.Buffer
 		printer.Fprint(&b, fset, t.obj)
 		k := fmt.Sprintf("%s|%s|%v", b.String(), t.field, t.write)
@@ -239,7 +283,9 @@ func touchStmts(ts []touch) []ast.Stmt {
 		if t.write {
 			w = "true"
 		}
-		out = append(out, &ast.ExprStmt{X: call(sel("vsched", "Touch"), t.obj, &ast.BasicLit{Kind: token.STRING, Value: fmt.Sprintf("%q", t.field)}, id(w))})
+		st := &ast.ExprStmt{X: call(sel("vsched", "Touch"), t.obj, &ast.BasicLit{Kind: token.STRING, Value: fmt.Sprintf("%q", t.field)}, id(w))}
+		generated[st] = true
+		out = append(out, st)
 		rep.Constructs["touch"]++
 	}
 	return out
@@ -369,8 +415,27 @@ func rewriteRange(r *ast.RangeStmt) ast.Stmt {
 
 func processFile(f *ast.File) {
 	// 1. touches (before structural rewriting, while type info still matches the nodes)
-	if len(watch) > 0 {
+	if len(watch) > 0 || len(watchSlices) > 0 {
 		astutil.Apply(f, func(c *astutil.Cursor) bool {
+			if generated[c.Node()] {
+				return false
+			}
+			if r, ok := c.Node().(*ast.RangeStmt); ok && r.Value != nil && isWatchedSlice(r.X) {
+				if vi, ok := r.Value.(*ast.Ident); !ok || vi.Name != "_" {
+					if r.Tok != token.DEFINE {
+						fail("range with = over a watched slice at %s", fset.Position(r.Pos()))
+					}
+					ki, _ := r.Key.(*ast.Ident)
+					if ki == nil || ki.Name == "_" {
+						ki = id(fresh("i"))
+						r.Key = ki
+					}
+					st := &ast.ExprStmt{X: call(sel("vsched", "Touch"), elemAddr(r.X, id(ki.Name)), &ast.BasicLit{Kind: token.STRING, Value: `"elem"`}, id("false"))}
+					generated[st] = true
+					r.Body.List = append([]ast.Stmt{st}, r.Body.List...)
+					rep.Constructs["touch-range-elems"]++
+				}
+			}
 			st, ok := c.Node().(ast.Stmt)
 			if !ok || c.Index() < 0 {
 				return true
@@ -550,6 +615,9 @@ func main() {
 	}
 	for _, w := range cfg.Watch {
 		watch[w] = true
+	}
+	for _, w := range cfg.WatchSlices {
+		watchSlices[w] = true
 	}
 	overlay := map[string][]byte{}
 	for rel, p := range cfg.Sources {
